@@ -72,7 +72,7 @@ def gen_cases(ctx):
             if k % ctx.nshards == ctx.shard:
                 yield {"kind": "animation", "length": n, "entry": e, "seed": rng.randrange(2**31),
                        "stamped": n > 12 or e != "function", "instance": {"cls": "animation"},
-                       "video": ctx.tier == "thorough" and e == "function" and n in (11, 101, 150)}
+                       "video": e == "function" and n in ((11,) if ctx.tier == "quick" else (11, 101, 150))}
             k += 1
     for i in range(ctx.scale(12, 750)):
         inst = gen.gen_instance(rng, None, max_jobs=3, max_machines=3, max_ops=10)
@@ -155,10 +155,25 @@ def run_chart(ctx, case):
     labels = [f"J<{j}>" for j in range(r.num_jobs)] if case["labels"] else None
     fig, ax = plot_gantt_chart(run.d.schedule, xlim=xlim, job_labels=labels, cmap_name=case["cmap"],
                                number_of_x_ticks=rng.choice([15, 3, 7]))
+    fig2 = None
     try:
+        if case["seed"] % 3 == 0:
+            # a second chart of the same instance (another schedule, same title) while the first
+            # one is still open: each keeps showing its own schedule
+            run2 = Run(case["instance"])
+            for _ in range(rng.randint(1, run2.r.num_ops)):
+                o2, m2 = run2.choose(rng, "random_ready")
+                run2.dispatch(o2, m2)
+            r2 = run2.r
+            want2 = [(r2.machine_of[o], r2.start[o], r2.end[o], r2.op_job[o]) for o in r2.start]
+            fig2, ax2 = plot_gantt_chart(run2.d.schedule, job_labels=labels, cmap_name=case["cmap"])
+            ctx.count("second_chart_while_first_open")
+            check_chart(ctx, run2.d.schedule, ax2, want2, None, labels, "second chart, same title")
         check_chart(ctx, run.d.schedule, ax, want, xlim, labels, "plot_gantt_chart")
     finally:
         plt.close(fig)
+        if fig2 is not None:
+            plt.close(fig2)
     ctx.note_case(case, r.num_jobs >= 2 and len(want) >= 3, fingerprint=str(hash(
         (gen.fingerprint(case["instance"]), tuple(r.history), str(xlim), case["labels"]))))
     ctx.count("class_" + case["instance"]["cls"])
